@@ -496,8 +496,15 @@ impl<'a> Cx<'a> {
             if cur.ty != value.ty {
                 return self.un(format!("assignment to `{}`: modelled types differ ({:?} / {:?})", p, cur.ty, value.ty));
             }
+            // a flag of the compiler that the parser's callbacks read (`in_try_block`, ...): the store is part of the observable order of
+            // what the statement compiler does, so it is logged among the calls it makes
+            let log = if self.self_ty.as_deref() == Some("Parser") && !self.vm_mode && value.ty == LT::Bool {
+                self.effect(&format!("store {}", p), vec![format!("(Rs.Arg.b {})", value.term)])
+            } else {
+                String::new()
+            };
             let body = self.block(rest, k)?;
-            return Ok(wrap_pre(&value.pre, format!("(let {} := {};\n  {})", cur.lean, value.term, body)));
+            return Ok(wrap_pre(&value.pre, format!("(let {} := {};\n  {}{})", cur.lean, value.term, log, body)));
         }
         if let Expr::Path(pth) = target {
             let n = path_segments(&pth.path).join("::");
